@@ -136,12 +136,21 @@ def _seq_event(pp, tid, s, stages, mn, mx, rt):
     def f():
         cfgs = [pp.EnzymeConfig(regex=[render(r) for r in st], missed_cleavages=0, semi_enzymatic=False,
                                 complete_digestion=True) for st in stages]
-        return list(pp.sequential_digest(s, cfgs, mn, mx, rt))
+        res = list(pp.sequential_digest(s, cfgs, mn, mx, rt))
+        # the configuration objects are the caller's: the first one is used again, for a plain digest
+        again = call(lambda: list(pp.digest_from_config(s, cfgs[0], mn, mx, rt, False)))
+        return res, again
     out, v = call(f)
-    return {"tid": tid, "k": "seqdigest", "seq": chars(s), "stages": stages,
+    evs = [{"tid": tid, "k": "seqdigest", "seq": chars(s), "stages": stages,
             "rules": [r for st in stages for r in st], "mn": -1 if mn is None else mn,
             "mx": -1 if mx is None else mx, "rt": rt, "out": out[:3],
-            "res": _proj_items(rt, v) if out == "ret" else []}
+            "res": _proj_items(rt, v[0]) if out == "ret" else []}]
+    if out == "ret":
+        o2, v2 = v[1]
+        evs.append({"tid": tid + ".cfg", "k": "digest", "via": "config_used_before", "seq": chars(s), "rules": stages[0], "stages": stages, "mc": 0,
+                    "semi": 0, "mn": -1 if mn is None else mn, "mx": -1 if mx is None else mx, "complete": 1, "rt": rt,
+                    "sort": 0, "out": o2[:3], "res": _proj_items(rt, v2) if o2 == "ret" else []})
+    return evs
 
 
 def strings_upto(alpha, n):
@@ -219,7 +228,7 @@ def run(tier, seed, rep):
         stages = [[rnd.choice(specific) for _ in range(rnd.choice([1, 1, 2]))] for _ in range(nst)]
         mn = rnd.choice([None, None, 1, 2, 3])
         mx = rnd.choice([None, None, 2, 4, 12])
-        ev3.append(_seq_event(pp, f"L3s.{i}", s, stages, mn, mx, rnd.choice(["span", "str-span", "annotation-span"])))
+        ev3.extend(_seq_event(pp, f"L3s.{i}", s, stages, mn, mx, rnd.choice(["span", "str-span", "annotation-span"])))
         i += 1
     res = core.validate_traces("Trace_Digest", ev3, "C06")
     rep.add_trace("L3_frontend", ev3, res,
@@ -245,13 +254,16 @@ def replay(path):
     elif ev["k"] == "spans":
         new = _spans_events(pp, [(ev["n"], ev["sites"], ev["mc"], bool(ev["semi"]), None if ev["mn"] < 0 else ev["mn"],
                                   None if ev["mx"] < 0 else ev["mx"])], "R")
+    elif ev["k"] == "digest" and ev.get("via") == "config_used_before":
+        new = _seq_event(pp, "R.0", "".join(ev["seq"]), ev["stages"], None if ev["mn"] < 0 else ev["mn"],
+                         None if ev["mx"] < 0 else ev["mx"], ev["rt"])
     elif ev["k"] == "digest":
         new = [_digest_event(pp, "R.0", "".join(ev["seq"]), ev["rules"], ev["mc"], bool(ev["semi"]),
                              None if ev["mn"] < 0 else ev["mn"], None if ev["mx"] < 0 else ev["mx"],
                              bool(ev["complete"]), ev["rt"], bool(ev["sort"]), ev.get("via", "digest"))]
     else:
-        new = [_seq_event(pp, "R.0", "".join(ev["seq"]), ev["stages"], None if ev["mn"] < 0 else ev["mn"],
-                          None if ev["mx"] < 0 else ev["mx"], ev["rt"])]
+        new = _seq_event(pp, "R.0", "".join(ev["seq"]), ev["stages"], None if ev["mn"] < 0 else ev["mn"],
+                         None if ev["mx"] < 0 else ev["mx"], ev["rt"])
     res = core.validate_traces("Trace_Digest", new, "C06")
     rep.add_trace("replay", new, res)
     return rep.finish(rule="replay of one recorded case")
